@@ -6,7 +6,7 @@ every aggregation threshold, every sequence of raw progress values.
 -/
 import S3V.Lemmas.Chunk
 import S3V.Props.C02
-import S3V.Props.C14
+import S3V.Props.C14Base
 
 namespace S3V.C09
 open S3V.Chunk
